@@ -35,6 +35,12 @@ def increased (W W' : Option Int) : Bool :=
   | none, some _ => true
   | some w, some w' => decide (w < w')
 
+/-- the watermark message to emit when the prescribed watermark went from `W` to `W'`: `W'` iff it increased -/
+def wmMsg (W W' : Option Int) : List Msg :=
+  match W' with
+  | some w' => if increased W W' then [.wm w'] else []
+  | none => []
+
 /-- the time field of a record, when it holds a Time -/
 def timeOf (idx : Nat) (r : Rec) : Option Int :=
   match r.vals[idx]? with
@@ -54,12 +60,28 @@ def specFrom (res md : Int) (idx : Nat) : List Int → List Msg → List Msg
       let W := wmAfter res md seen
       let W' := wmAfter res md (seen ++ [t])
       (if dropped W t then [] else [.data { r with et := some t }])
-        ++ (match W' with
-            | some w' => if increased W W' then [.wm w'] else []
-            | none => [])
+        ++ wmMsg W W'
         ++ specFrom res md idx (seen ++ [t]) ms
 
 def spec (res md : Int) (idx : Nat) (inp : List Msg) : List Msg := specFrom res md idx [] inp
+
+/-- the time-field values of the records of a stream, in order -/
+def times (idx : Nat) (ms : List Msg) : List Int := (recs ms).filterMap (timeOf idx)
+
+/-- `ws` is strictly increasing and, when there is a previous value `d`, starts above it -/
+def StrictIncrFrom : Option Int → List Int → Prop
+  | _, [] => True
+  | d, w :: ws => (match d with | none => True | some v => v < w) ∧ StrictIncrFrom (some w) ws
+
+def StrictIncr (ws : List Int) : Prop := StrictIncrFrom none ws
+
+/-- the last element of `ws`, or `d` when there is none: the *current* watermark after emitting `ws` -/
+def lastWm : Option Int → List Int → Option Int
+  | d, [] => d
+  | _, w :: ws => lastWm (some w) ws
+
+/-- a record as it must be forwarded: event time := its time field, nothing else touched -/
+def stamped (idx : Nat) (r : Rec) : Rec := { r with et := timeOf idx r }
 
 /-- the input is in the domain of the property: every record has a Time in the time field, within the
     Int64-nanosecond range (outside it Go's `UnixNano` is undefined) -/
